@@ -135,6 +135,46 @@ def make_run_script(rng, name, kind=None):
     lines.append("titer")
     return f"=== {name} plan={plan} nkeys={n + 6}\n" + "\n".join(lines) + "\n"
 
+def make_removal_script(rng, name, kind=None):
+    """C10 for HashTable: retain / extract_if / drain on collision runs, then refill and observe."""
+    kind = kind or rng.choice(["table-drop", "table-plain", "table-200"])
+    plan = rng.choice(["zero", "max", "lowpos", "twotags", "wrap", "sametag", "mix", "seq"])
+    n = rng.choice([3, 7, 9, 14, 16, 17, 24, 28, 33, 40, 56, 57])
+    salt = rng.getrandbits(32)
+    lines = [f"kind {kind}"] + [f"hash {k} {plan_hash(plan, k, rng, salt)}" for k in range(n + 8)]
+    stamp = [0]
+    def st():
+        stamp[0] += 1
+        return stamp[0]
+    live = set()
+    for rnd in range(rng.choice([1, 2, 3])):
+        for k in range(n):
+            if k not in live:
+                lines.append(f"tinsertunique {k} {st()} {rng.randrange(100)}"); live.add(k)
+        c = rng.choice(["tretain", "tretain", "textractif", "textractif", "tdrain"])
+        lv = sorted(live)
+        mode = rng.choice(["none", "one", "some", "all"])
+        pick = [] if mode == "none" else ([rng.choice(lv)] if mode == "one" and lv else ([x for x in lv if rng.random() < 0.5] if mode == "some" else lv))
+        if c == "tretain":
+            lines.append(f"tretain {rng.randrange(3)} " + " ".join(map(str, pick))); live = set(pick)
+        elif c == "textractif":
+            take = rng.choice([0, 1, len(pick) // 2, len(pick), 1000])
+            lines.append(f"textractif {take} " + " ".join(map(str, pick)))
+            if take >= len(pick):
+                live -= set(pick)
+            else:
+                lines += ["titer", "tlen", "tcapacity", "tclear"]; live = set()
+        else:
+            lines.append(f"tdrain {rng.choice([0, 1, len(lv) // 2, len(lv), 1000])}"); live = set()
+        lines += ["tlen", "tcapacity", "titer"]
+        for k in rng.sample(range(n + 4), min(n + 4, rng.choice([1, 3, n // 2 + 1, n + 4]))):
+            if k not in live:
+                lines.append(f"tentryorinsert {k} {st()} {rng.randrange(100)}"); live.add(k)
+        for k in rng.sample(range(n + 4), min(4, n)):
+            lines.append(rng.choice([f"tfind {k} id {k}", f"titerhash {k}"]))
+        lines += ["tlen", "tcapacity", "titer"]
+    return f"=== {name} plan={plan} nkeys={n + 6}\n" + "\n".join(lines) + "\n"
+
 if __name__ == "__main__":
     seed, count = int(sys.argv[1]), int(sys.argv[2])
     rng = random.Random(seed)
